@@ -43,20 +43,53 @@ pub struct Run {
     pub stderr: Vec<u8>,
 }
 
-/// `gram <sub> <file>` with colours off, a fixed relative path and working directory.
+pub const TIMEOUT_STATUS: i32 = 9999;
+
+/// `gram <sub> <file>` with colours off, a fixed relative path and working directory. A run that
+/// takes longer than 10 s is killed and reported with status `TIMEOUT_STATUS` (a divergent program;
+/// never a verdict).
 pub fn run(sub: &str, dir: &Path, file_name: &str) -> Result<Run, String> {
+    use std::io::Read;
     use std::os::unix::process::ExitStatusExt;
-    let out = Command::new(binary())
+    let mut child = Command::new(binary())
         .arg(sub)
         .arg(file_name)
         .current_dir(dir)
         .env("NO_COLOR", "1")
         .env_remove("CLICOLOR_FORCE")
         .stdin(Stdio::null())
-        .output()
+        .stdout(Stdio::piped())
+        .stderr(Stdio::piped())
+        .spawn()
         .map_err(|e| format!("cannot run {}: {e}", binary().display()))?;
-    let status = out.status.code().unwrap_or_else(|| 1000 + out.status.signal().unwrap_or(0));
-    Ok(Run { status, stdout: out.stdout, stderr: out.stderr })
+    let mut out = child.stdout.take().unwrap();
+    let mut err = child.stderr.take().unwrap();
+    let t_out = std::thread::spawn(move || {
+        let mut v = vec![];
+        let _ = out.read_to_end(&mut v);
+        v
+    });
+    let t_err = std::thread::spawn(move || {
+        let mut v = vec![];
+        let _ = err.read_to_end(&mut v);
+        v
+    });
+    let deadline = std::time::Instant::now() + std::time::Duration::from_secs(10);
+    let status = loop {
+        match child.try_wait() {
+            Ok(Some(s)) => break s.code().unwrap_or_else(|| 1000 + s.signal().unwrap_or(0)),
+            Ok(None) => {
+                if std::time::Instant::now() > deadline {
+                    let _ = child.kill();
+                    let _ = child.wait();
+                    break TIMEOUT_STATUS;
+                }
+                std::thread::sleep(std::time::Duration::from_millis(2));
+            }
+            Err(e) => return Err(format!("waiting for gram failed: {e}")),
+        }
+    };
+    Ok(Run { status, stdout: t_out.join().unwrap_or_default(), stderr: t_err.join().unwrap_or_default() })
 }
 
 /// A private scratch directory for one worker (removed by `Drop`).
